@@ -22,6 +22,8 @@ EvChecks(ev, t) ==
           IF ev.res = "ok"
           THEN SwapChecks(st, fees, ev.args.i, ev.args.j, ev.args.k, ev.args.offer, ev.args.curve, ev.args.out, t)
                \o SimChecks(ev.args.sim, ev.args.out) \o HarnessAmp(ev) \o SwapLedgerChecks(st, ev.args.j, ev.args.out, t)
+               \o << <<"C07.trio.recorded-protocol-fee=floor(protocol-share*gross)",
+                        t.feeAll[ev.args.j] -- st.feeAll[ev.args.j] = MulFloor(GrossOf(ev.args.out), fees.p)>> >>
                \o SpreadChecks(ev.args.offer, ev.args.out, ev.args.ms, ev.args.bp)
           ELSE Untouched(st, t)
                \o (IF ev.args.wrong_path THEN <<>> ELSE SpreadInsideChecks(ev.args.offer, ev.args.sim, ev.args.ms, ev.args.bp))
